@@ -587,15 +587,16 @@ def ob_join(op, w, tier="quick", smart=True):
     def body(c):
         a = sym_si(ns, "a", w, allow_bottom=False)
         b = sym_si(ns, "b", w, allow_bottom=False)
-        side = c.choose([True, True], "member-of")          # the member comes from a / from b
-        v = sym_member("x", a if side == 0 else b)
+        d = sym_si(ns, "d", w, allow_bottom=False) if op == "least_upper_bound3" else None
+        side = c.choose([True] * (3 if d is not None else 2), "member-of")          # the member comes from a / from b (/ from the third operand)
+        v = sym_member("x", [a, b, d][side])
         apply_known(c, f"si.{op}{'' if smart else '[plain]'}/gamma", a, b, w)
         if op == "pseudo_join":
             f = lambda: SIc.pseudo_join(a, b, smart)
         elif op == "least_upper_bound":
             f = lambda: SIc.least_upper_bound(a, b)
         elif op == "least_upper_bound3":
-            d = sym_si(ns, "d", w)
+            # three operands: the only arity at which least_upper_bound runs its own loop (two go to pseudo_join)
             f = lambda: SIc.least_upper_bound(a, b, d)
         else:
             f = lambda: getattr(a, op)(b)
